@@ -11,6 +11,7 @@ import (
 	"sync/atomic"
 	"time"
 
+	"github.com/scigolib/hdf5/internal/core"
 	"github.com/scigolib/hdf5/internal/structures"
 )
 
@@ -120,6 +121,11 @@ func vfAttrValue(kind string) interface{} {
 		return map[string]int{"a": 1}
 	case "empty":
 		return []int32{}
+	}
+	if strings.HasPrefix(kind, "str:") {
+		var n int
+		fmt.Sscanf(kind, "str:%d", &n)
+		return strings.Repeat("q", n)
 	}
 	panic("unknown attr value kind " + kind)
 }
@@ -551,4 +557,68 @@ func vfApplyToggle(w *vfWorld, o vfOp) error {
 		}
 	}
 	return nil
+}
+
+// vfHeaderMessageBytes returns the number of message bytes (4-byte message header + data,
+// v2 layout) in the object header at path of the file written so far.
+func vfHeaderMessageBytes(w *vfWorld, path string) int {
+	f, err := Open(w.Path)
+	if err != nil {
+		return -1
+	}
+	defer f.Close()
+	total := -1
+	f.Walk(func(p string, o Object) {
+		var addr uint64
+		switch x := o.(type) {
+		case *Dataset:
+			addr = x.address
+		case *Group:
+			addr = x.address
+		}
+		if strings.TrimSuffix(p, "/") == path && addr != 0 {
+			if h, err := core.ReadObjectHeader(f.osFile, addr, f.sb); err == nil {
+				total = 0
+				for _, m := range h.Messages {
+					total += 4 + len(m.Data)
+				}
+			}
+		}
+	})
+	return total
+}
+
+// vfHeaderFillStates finds, for every reachable total T in [lo,hi], a short history that
+// brings the object header of a fresh dataset /x to exactly T message bytes (one string
+// attribute of tuned length, optionally a second small one), so that capacity edges of the
+// single-chunk header (255) can be approached from every distance.
+func vfHeaderFillStates(dir string, mk vfOp, lo, hi int) map[int][]vfOp {
+	out := map[int][]vfOp{}
+	try := func(ops []vfOp) {
+		w, err := vfNewWorld(dir)
+		if err != nil {
+			return
+		}
+		defer w.Remove()
+		if e, _ := w.Apply(mk); e != nil {
+			return
+		}
+		for _, o := range ops {
+			if e, _ := w.Apply(o); e != nil {
+				return
+			}
+		}
+		t := vfHeaderMessageBytes(w, mk.Path)
+		if t >= lo && t <= hi {
+			if _, ok := out[t]; !ok {
+				out[t] = append([]vfOp{mk}, ops...)
+			}
+		}
+	}
+	for n := 1; n <= 230; n++ {
+		try([]vfOp{{Op: "attr", Path: mk.Path, Name: "h", Value: fmt.Sprintf("str:%d", n)}})
+		try([]vfOp{{Op: "attr", Path: mk.Path, Name: "h", Value: fmt.Sprintf("str:%d", n)}, {Op: "attr", Path: mk.Path, Name: "k", Value: "u8"}})
+		try([]vfOp{{Op: "attr", Path: mk.Path, Name: "hh", Value: fmt.Sprintf("str:%d", n)}, {Op: "attr", Path: mk.Path, Name: "k", Value: "i64"}})
+	}
+	return out
 }
